@@ -28,7 +28,20 @@ import (
 	"golang.org/x/tools/go/packages"
 )
 
-var wallPkgs = map[string]bool{"os": true, "os/exec": true, "io/ioutil": true, "syscall": true, "net": true, "net/http": true, "plugin": true}
+var wallPkgs = map[string]bool{"os": true, "os/exec": true, "io/ioutil": true, "syscall": true, "net": true, "net/http": true, "plugin": true,
+	"os/user": true, "os/signal": true, "log/syslog": true, "net/smtp": true, "net/rpc": true, "net/mail": false}
+
+// single functions of otherwise harmless packages that open files, read the environment or ask the system by themselves
+var wallFuncs = map[string]map[string]bool{
+	"time":          {"LoadLocation": true},
+	"path/filepath": {"Glob": true, "Walk": true, "WalkDir": true, "EvalSymlinks": true, "Abs": true},
+	"text/template": {"ParseFiles": true, "ParseGlob": true, "ParseFS": true},
+	"html/template": {"ParseFiles": true, "ParseGlob": true, "ParseFS": true},
+	"archive/zip":   {"OpenReader": true},
+	"mime":          {"TypeByExtension": true, "ExtensionsByType": true},
+	"crypto/x509":   {"SystemCertPool": true},
+	"runtime/debug": {"WriteHeapDump": true},
+}
 var fmtFuncs = map[string]bool{"Print": true, "Printf": true, "Println": true}
 
 const modPath = "github.com/glycerine/zygomys/v9"
@@ -135,7 +148,7 @@ func main() {
 				}
 				if path == "fmt" && fmtFuncs[fn.Name()] {
 					fmtSites++
-				} else if wallPkgs[path] {
+				} else if wallPkgs[path] || wallFuncs[path][fn.Name()] {
 					wallSites++
 				} else {
 					return true
